@@ -79,6 +79,23 @@ def constant_substitution(repo, chk, rule):
         except Exception as e:      # noqa: BLE001
             ok, detail = False, f'{type(e).__name__}: {e}'
         chk.expect(ok, rule, f'PrimitiveValue.at[{label}]', detail, 'hidc/ast/expressions.py')
+    # a byte constant cast to int is an int constant (`'A' is int` is written as 65, not as the byte)
+    DT = ns['DataType']
+    for label, v in (('byte', ns['ByteValue'](65, a)), ('char byte', ns['ByteValue'](65, a, is_char=True))):
+        try:
+            r = v.cast(DT.INT)
+            ok = type(r).__name__ == 'IntValue' and r.data == 65 and r.type == DT.INT
+            detail = f'{type(r).__name__} of type {r.type}'
+        except Exception as e:      # noqa: BLE001
+            ok, detail = False, f'{type(e).__name__}: {e}'
+        chk.expect(ok, rule, f'ByteValue.cast(int)[{label}]', detail, 'hidc/ast/expressions.py')
+    # the documented builtin table: write and writeln take the same argument types (writeln also none)
+    prog = it.load('hidc/ast/program.py')
+    wl = {s_.param_types for s_ in prog['builtin_stubs'] if s_.name.base_name == 'writeln' and s_.param_types}
+    wr = {s_.param_types for s_ in prog['builtin_stubs'] if s_.name.base_name == 'write'}
+    chk.expect(wl == wr and any(s_.name.base_name == 'writeln' and not s_.param_types for s_ in prog['builtin_stubs']), rule,
+               'builtin stubs: write / writeln twins', f'write only: {sorted(map(str, wr - wl))}; writeln only: {sorted(map(str, wl - wr))}',
+               'hidc/ast/program.py')
     return n
 
 
@@ -409,4 +426,13 @@ def run(repo, chk):
     from . import c13
     c13.run(repo, Remap(chk, {'C13.B0': 'C17.D7', 'C13.B2': 'C17.D7', 'C13.B3': lambda c: 'C17.D7' if c.startswith('make_global') else None}))
     constant_substitution(repo, chk, 'C17.D1')
+    # a string converted to a byte array stays in the const section: the reference is tagged RC, so that write(s is byte[]) is
+    # dispatched to the routine that reads const memory
+    for fn_ in ('eval_expr',):
+        ok_ = False
+        for n_ in ast.walk(gf.methods[fn_]):
+            if isinstance(n_, ast.match_case) and 'StringToByteArray' in src(n_.pattern):
+                calls_ = [c_ for st_ in n_.body for c_ in ast.walk(st_) if isinstance(c_, ast.Call) and src(c_.func) == 'ConcreteArrayType']
+                ok_ = bool(calls_) and all(len(c_.args) == 2 and src(c_.args[1]) == 'AccessMode.RC' for c_ in calls_)
+        chk.expect(ok_, 'C17.D1', 'eval_expr[StringToByteArray]::access mode', 'the converted array must be a ConcreteArrayType(BYTE, AccessMode.RC)', GEN)
     chk.not_decided = ['the digits printed for every representable integer (VM arithmetic)']
